@@ -1,5 +1,6 @@
 import RgVerif.Lemmas.LineBufferFill
 import RgVerif.Lemmas.ReadByLineTop
+import RgVerif.Lemmas.ReadByLineGTop
 /-
 C02 — results do not depend on how the input bytes reach the searcher.
 Property theorems about the roll buffer (`line_buffer.rs`): for EVERY capacity (0 included), every
@@ -108,42 +109,46 @@ theorem roll_preserves (s : LB) (hp : s.pos ≤ s.buf.length) :
 for every configuration with binary detection off, every matcher, every sink script (continue /
 stop / error at any callback), every input, every read script (fragmentation, `Interrupted`),
 every initial capacity, `search_reader` delivers the event stream of `search_slice`.
-Believed true (0 disagreements of the two models on every run of the harness), NOT proved:
-missing are (1) retained context across a roll — the relation `last_line_visited_reader + abs =
-max last_line_visited_slice abs` of DESIGN §4.2 and the lemma that `is_gap`, the before-context
-lower bound and the lazy after-context start have the same outcome under it; (2) sink scripts
-other than all-continue; (3) `stop_on_nonmatch`. The fast path additionally needs the matcher
-contract (`LineSafe`) and is false as stated when the sink stops the search (finding F10b). -/
+Believed true (0 disagreements of the two models on every run of the harness); proved for every
+configuration WITHOUT context lines (`C02_partial`: any sink script, `stop_on_nonmatch`, passthru,
+inversion, line numbers, terminators). NOT proved: configurations with `-A`, `-B`, `-C` context — what is
+missing is the relation `last_line_visited_reader + abs = max last_line_visited_slice abs` of
+DESIGN §4.2 across a roll that retains context and the lemma that `is_gap`, the before-context
+lower bound and the lazy after-context start have the same outcome under it. The fast path
+additionally needs the matcher contract (`LineSafe`) and is false as stated when the sink stops
+the search (finding F10b). -/
 def C02_full : Prop :=
   ∀ (cfg : Searcher.Config) (m : MatcherI) (σ : Script) (inp : Bytes) (script : List Step) (cap : Option Nat),
     cfg.binary = .none → cfg.multiLine = false →
     isLineByLineFast cfg m (Core.new cfg true) = false → NoZero script →
     (searchReader cfg m σ none cap ⟨inp, script, 0⟩).events = (searchSlice cfg m σ inp).events
 
-/-- **C02, proved part**: no context lines (`-A`, `-B`, `-C` = 0; passthru allowed), all-continue
-sink, no `stop_on_nonmatch`, slow path, detection off, eager allocation: for EVERY input, read
-script (1-byte reads, `Interrupted`, the decoder's BOM peek), and initial capacity, the reader
-strategy delivers exactly the slice strategy's events — matched / passthru lines, line numbers,
-absolute offsets, final byte count — and returns `Ok`. -/
-theorem C02_partial (cfg : Searcher.Config) (m : MatcherI) (h : NoCtx cfg)
+/-- **C02, proved part**: for every configuration without context lines (`-A`, `-B`, `-C` = 0;
+passthru, inversion, `stop_on_nonmatch`, line numbers on/off, any terminator), on the slow path,
+detection off, eager allocation — for EVERY sink script (continue / stop / error at any
+callback), input, read script (1-byte reads, `Interrupted`, the decoder's BOM peek) and initial
+capacity, the reader strategy delivers exactly the slice strategy's callbacks — matched /
+passthru lines, line numbers, absolute offsets, the final byte count also after an early stop
+(fix 9a1d13a) — and returns the same `Ok` / `Err`. -/
+theorem C02_partial (cfg : Searcher.Config) (m : MatcherI) (σ : Script) (h : NoCtx' cfg)
     (hslow : isLineByLineFast cfg m (Core.new cfg true) = false)
     (lbcfg : LineBuffer.Config) (hlt : lbcfg.lineterm = cfg.lineTerm.asByte) (hb : lbcfg.binary = .none)
     (hal : lbcfg.alloc = .eager) (rdr : Reader) (hz : NoZero rdr.script) :
-    (readByLine cfg m allCont lbcfg rdr).events = (sliceByLine cfg m allCont rdr.data).events ∧
-      (readByLine cfg m allCont lbcfg rdr).result = .ok () :=
-  readByLine_eq_sliceByLine m h hslow lbcfg hlt hb hal rdr hz
+    (readByLine cfg m σ lbcfg rdr).events = (sliceByLine cfg m σ rdr.data).events ∧
+      (readByLine cfg m σ lbcfg rdr).result = (sliceByLine cfg m σ rdr.data).result :=
+  readByLine_eq_sliceByLine_G m σ h hslow lbcfg hlt hb hal rdr hz
 
 /-- The same through the strategy selection of `search_reader` / `search_slice` (roll buffer built
 by `Config::line_buffer` with any `verif_buffer_capacity`, pass-through decoder with its BOM peek). -/
-theorem C02_partial_search (cfg : Searcher.Config) (m : MatcherI) (h : NoCtx cfg) (hml : cfg.multiLine = false)
-    (hslow : isLineByLineFast cfg m (Core.new cfg true) = false)
+theorem C02_partial_search (cfg : Searcher.Config) (m : MatcherI) (σ : Script) (h : NoCtx' cfg)
+    (hml : cfg.multiLine = false) (hslow : isLineByLineFast cfg m (Core.new cfg true) = false)
     (inp : Bytes) (script : List Step) (cap : Option Nat)
     (hz : NoZero (⟨inp, script, 0⟩ : Reader).withBomPeek.script) :
-    (searchReader cfg m allCont none cap ⟨inp, script, 0⟩).events = (searchSlice cfg m allCont inp).events := by
+    (searchReader cfg m σ none cap ⟨inp, script, 0⟩).events = (searchSlice cfg m σ inp).events := by
   have hmm : multiLineWithMatcher cfg m = false := by simp [multiLineWithMatcher, hml]
   unfold searchReader searchSlice
   simp only [hmm, Bool.false_eq_true, if_false]
-  have := C02_partial cfg m h hslow (lineBufferConfig cfg none cap) rfl
+  have := C02_partial cfg m σ h hslow (lineBufferConfig cfg none cap) rfl
     (by simp [lineBufferConfig, h.hbin, BinaryDetection.toLB]) (by simp [lineBufferConfig])
     (⟨inp, script, 0⟩ : Reader).withBomPeek hz
   exact this.1
@@ -164,11 +169,26 @@ example :
     let cfg : Searcher.Config := { passthru := true }
     let m : MatcherI := MatcherI.ofFindAt (fun h at_ =>
       ((h.drop at_).findIdx? (· == 120)).map fun i => ⟨at_ + i, at_ + i + 1⟩)
-    NoCtx cfg ∧ isLineByLineFast cfg m (Core.new cfg true) = false ∧
+    NoCtx' cfg ∧ isLineByLineFast cfg m (Core.new cfg true) = false ∧
       (readByLine cfg m allCont ⟨1, 10, .eager, .none⟩ ⟨[97, 10, 120, 10, 98], [.ret 1, .intr, .ret 1], 0⟩).events
         = [.begin, .context .other (some 1) 0 [97, 10], .matched (some 2) 2 [120, 10],
            .context .other (some 3) 4 [98], .finish 5 none] := by
-  refine ⟨⟨rfl, rfl, rfl, rfl⟩, by decide, by decide⟩
+  refine ⟨⟨rfl, rfl, rfl⟩, by decide, by decide⟩
+
+/-- Non-vacuity of `C02_partial` with an early stop: `stop_on_nonmatch`, capacity 1, 1-byte reads:
+the reader stops at the first non-matching line after a match and reports 4 bytes searched (the
+end of that line), like the slice strategy; and a sink that says stop at its second callback. -/
+example :
+    let cfg : Searcher.Config := { stopOnNonmatch := true }
+    let m : MatcherI := MatcherI.ofFindAt (fun h at_ =>
+      ((h.drop at_).findIdx? (· == 120)).map fun i => ⟨at_ + i, at_ + i + 1⟩)
+    NoCtx' cfg ∧ isLineByLineFast cfg m (Core.new cfg true) = false ∧
+      (readByLine cfg m allCont ⟨1, 10, .eager, .none⟩ ⟨[120, 10, 97, 10, 120, 10], [.ret 1, .ret 1], 0⟩).events
+        = [.begin, .matched (some 1) 0 [120, 10], .finish 4 none] ∧
+      (readByLine cfg m (fun i => if i == 1 then .stop else .cont) ⟨1, 10, .eager, .none⟩
+          ⟨[120, 10, 97, 10, 120, 10], [.ret 1, .ret 1], 0⟩).events
+        = [.begin, .matched (some 1) 0 [120, 10], .finish 2 none] := by
+  refine ⟨⟨rfl, rfl, rfl⟩, by decide, by decide, by decide⟩
 
 /-- Non-vacuity: capacity 1, two-byte lines, 1-byte reads with an `Interrupted` in between — the
 buffer grows, fills, and is rolled; the window statement is about a run that does all of it. -/
